@@ -51,7 +51,7 @@ META = dict(
     rule="one evaluation = one CBMC query covering a batch of scenarios x every fault index k x both schedules (k alone; k and all later), k enumerated concretely inside the harness until the run that makes <= k requests (the fault-free run); "
          "distinct = distinct (batch, schedule family); non-trivial = at least one refusal actually reached (asserted by the harness: the fault enumeration must reach the fault-free run, and the witness must be reachable)",
     bounds={"quick": "(trees of <= 5 nodes in the quick tier) decoder: accepted skeletons of <= 2 heads, a third of the 3-head ones, variety and special shapes; tree ops: 65 construction programs + 20 special decoder trees; all constructors; growth at sizes 0..4 for all four growable containers; single-fault and fail-stop schedules, complete per scenario",
-            "thorough": "decoder: all accepted skeletons <= 4 heads; tree ops on 200 decoder trees"},
+            "thorough": "decoder: all accepted skeletons <= 4 heads (all of S(3), every accepted 4-head sequence, every 4th rejected and every 16th still-open 4-head sequence); tree ops on 200 decoder trees"},
     assumptions=["fault index k concrete (a symbolic k re-creates the pointer-merge blow-up, DESIGN 1.1); N is observed in the run itself, not assumed", "pointer checks ON: a NULL dereference on a failure path is a failed property"],
     outside=["arbitrary multi-fault subsets other than fail-stop"],
     explanation="Exhaustive enumeration of single-fault and fail-stop schedules per scenario with symbolic data; every run is a CBMC execution of the real code with memory checks and leak check.",
